@@ -25,7 +25,7 @@ RULE = ("random histories (length <= 15, thorough <= 25) per object: FunctionSig
         "filter_frequencies, set_buffers (incl. force / None / rejected negative; for sample spacings that are not binary "
         "fractions - 0.1, 0.3, 0.7, 1/3, 1e-9, 0.7e-9 and the Askaryan/noise grids - also buffers on and one ulp next to "
         "k*dt, decimal literals, accumulated sums, and values for which fl(b/dt) is an integer while b % dt != 0), "
-        "resample, with_times, +, copy, *, "
+        "resample, with_times, + (with function-backed, sampled and empty signals, both operand orders), copy, *, "
         "in-place edit of `times` handed back as the same object (times += d; t = times; t += d; times = t); "
         "tracers and paths - assignments of from_point, to_point, ice, dz, theta0, direct and of the class-level "
         "settings max_reflections, uniformity_factor, beta_tolerance, solution_sorting, in-place edits of an endpoint "
@@ -61,6 +61,9 @@ LEVEL_NOTE = ("Assumed (translator, trusted base): the value of a lazy property 
               "proved for the scalar-gain instance only - that the product of frequency responses acts in one "
               "pad/FFT/crop pass is property C05.  The key-set machine flattens branches, so it is compared "
               "as an over-approximation of the `_lazy_*` keys (exact on straight-line methods).  No theorem is partial.")
+FUNCTION_POOL_NOTE = ("signal functions: three vectorised ones and three that accept scalar times only (math.*, a "
+                      "branch on the sign of t, an explicit refusal) and raise TypeError / ValueError on arrays, "
+                      "so that the one-at-a-time fallback of FunctionSignal.values runs with shifted origins")
 ASSUMPTIONS = ["private attributes (leading underscore) are not assigned by users of the objects",
                "functions handed to FunctionSignal are pure functions of their argument"]
 
@@ -98,7 +101,21 @@ def env():
 
     def half(f):
         return 0.5 * np.ones(len(f))
-    _E["funcs"] = [f1, f2, f3]
+    import math
+
+    def s1(t):      # scalar times only (math.*): TypeError on arrays -> one-at-a-time fallback of `values`
+        return math.exp(-((t - 3.0) / 1.5) ** 2)
+
+    def s2(t):      # scalar times only (branch on the sign of t): ValueError on arrays
+        if t < 0:
+            return 0.3 * t
+        return math.sin(0.7 * t)
+
+    def s3(t):      # scalar only, explicit refusal
+        if isinstance(t, np.ndarray) and t.ndim > 0:
+            raise TypeError("scalar times only")
+        return 0.25 * float(t) + 1.0 if t >= 1.0 else 0.5 * float(t) * float(t)
+    _E["funcs"] = [f1, f2, f3, s1, s2, s3]
     _E["filters"] = [(lp, True), (delay, True), (half, False)]
     try:
         from pyrex.custom.layered_ice import LayeredIce, LayeredRayTracer
@@ -387,7 +404,7 @@ def signal_history(ctx, nsteps):
     for _ in range(nsteps):
         s = tr.obj
         op = rng.choice(["read", "read", "shift", "imul", "idiv", "filter", "buffers", "resample", "with_times",
-                         "add", "copy", "mul", "times_inplace", "respace"]
+                         "add", "copy", "mul", "times_inplace", "respace", "add_sampled"]
                         + (["buffers", "buffers"] if nonbinary(unit) else []))
         ctx.run.count("sig_op_" + op)
         if op == "read":
@@ -422,6 +439,39 @@ def signal_history(ctx, nsteps):
                 ctx.tracked.append(ntr)
                 tr = ntr
                 ctx.hist.append("with_times <same length, spacing x%g> ; (continue on the result)" % k)
+            check_signal(ctx, tr)
+            ctx.hist.append("read")
+            continue
+        elif op == "add_sampled":
+            # function-backed + sampled / empty signal, both operand orders
+            with warnings.catch_warnings():
+                warnings.simplefilter("ignore")
+                vals = np.array([rng.randint(-8, 8) / 4.0 for _ in range(len(s.times))])
+                sig = S.Signal(s.times, vals, s.value_type)
+                want = eager_values(s) + vals
+                r1, r2 = s + sig, sig + s
+                tr.tok("call:__add__")          # (the sampled branch of __add__ reads `values`)
+                tr.tok("r:values")
+                scale = max(1e-300, float(np.max(np.abs(want))))
+                for name, r in (("function + sampled", r1), ("sampled + function", r2)):
+                    if type(r) is not S.Signal or not np.all(np.abs(r.values - want) <= 1e-9 * scale + 1e-12):
+                        ctx.note("%s: %s is not the pointwise sum of the sampled values and the eager evaluation "
+                                 "of the function signal" % (type(s).__name__, name))
+                emp = S.EmptySignal(s.times, s.value_type)
+                if rng.random() < 0.5:
+                    new, entry = s + emp, "__add__"
+                    tr.tok("call:__add__")
+                else:
+                    new, entry = emp + s, "copy"
+                    tr.tok("call:copy")
+            tr.read_before = True
+            ntr = Tracked(new, "FunctionSignal", ["call:%s@new_signal" % entry])
+            ntr.keys.append(keyset(new))
+            ctx.tracked.append(ntr)
+            ctx.hist.append("f+sampled, sampled+f, %s" % ("f+empty" if entry == "__add__" else "empty+f"))
+            if rng.random() < 0.6:
+                tr = ntr
+                ctx.hist.append("(continue on the result)")
             check_signal(ctx, tr)
             ctx.hist.append("read")
             continue
